@@ -85,6 +85,13 @@ def configs(tier):
                         continue
                     out.append(dict(entry='Gillespie_complex_contagion', model=model, graph=g, ic=ic, full=full, max_expo=E, truncate=True,
                                     wstub='abstract', tags=[model, g, 'full' if full else 'plain']))
+                if g in ('P3', 'K3'):
+                    # the influence set may be any iterable the user likes: a one-shot iterator (G.neighbors(node)), a set, a tuple
+                    for infl in ('iterator', 'set', 'tuple'):
+                        if tier == 'quick' and g == 'K3' and infl != 'iterator':
+                            continue
+                        out.append(dict(entry='Gillespie_complex_contagion', model=model, graph=g, ic=ic, full=False, max_expo=E, truncate=True,
+                                        infl=infl, wstub='abstract', tags=[model, g, 'influence:' + infl]))
                 if g in ('K2', 'P3') or tier == 'thorough':
                     # finite symbolic horizon: nothing may be reported at or after tmax
                     out.append(dict(entry='Gillespie_complex_contagion', model=model, graph=g, ic=ic, full=(g == 'K2'), max_expo=E - 1, truncate=True,
@@ -150,7 +157,15 @@ def run_path(h, cfg):
 
     def get_influence_set(G_, u, status, parameters):
         seen(status, 'get_influence_set(%s)' % (u,))
-        return m['influence'](G_, u, status, parameters)
+        res = m['influence'](G_, u, status, parameters)
+        kind = cfg.get('infl')
+        if kind == 'iterator':
+            return iter(list(res))
+        if kind == 'set':
+            return set(res)
+        if kind == 'tuple':
+            return tuple(res)
+        return res
     f = EoN.Gillespie_complex_contagion
     ret = h.call_must_succeed('no-exception', f, G, rate_function, transition_choice, get_influence_set, IC, tuple(m['statuses']),
                               tmin=tmin, tmax=tmax, parameters=params, return_full_data=cfg['full'])
